@@ -87,6 +87,11 @@ def step (s : Option Cache) (t : List String) : Option Cache × List String :=
       let (c', _, _) := c.step (.moveToEnd i)
       (some c', [if present then "P mvend OK" else "P mvend absent"] ++ showState c')
     | none => (s, ["bad-op"])
+  -- `aws_linked_hash_table_clean_up` / `aws_cache_destroy`: `aws_hash_table_clean_up` clears (every remaining key and
+  -- value destroyed once), then everything is freed; the table is gone afterwards
+  | some c, ["destroy"] =>
+    let (_, _, evs) := c.step .clear
+    (none, ["P destroy"] ++ showEvs evs false ++ ["P leak=0"])
   | some c, ["uselru"] =>
     if c.policy != .lru then (s, ["bad-op"]) else
     let (c', r, _) := c.step .useLru
@@ -199,6 +204,7 @@ def stepAll (d : DS) (t : List String) : DS × List String :=
     match d.c with
     | none => ({ d with c := c' }, lines)
     | some c =>
+      if t == ["destroy"] then ({ d with c := c', impl := none }, lines) else
       let impl' := match d.impl with
         | some s => implApply d.hm c s t
         | none => none
